@@ -2529,6 +2529,15 @@ fn convert_value_to_type2<'a>(
         // Remove quotes
         let text_content = &text[1..text.len() - 1];
         // Handle escape sequences
+        if has_invalid_unicode_escape(text_content) {
+          return Err(Error::PARSER {
+            position: pest_span_to_position(&inner.as_span(), input),
+            msg: ErrorMsg {
+              short: "Invalid Unicode escape in text string".to_string(),
+              extended: None,
+            },
+          });
+        }
         let unescaped = unescape_text(text_content);
         return Ok(ast::Type2::TextValue {
           value: Cow::Owned(unescaped),
@@ -2566,6 +2575,14 @@ fn convert_value_to_type2<'a>(
         // Remove quotes
         let text_content = &text[1..text.len() - 1];
         // Handle escape sequences
+        if has_invalid_unicode_escape(text_content) {
+          return Err(Error::PARSER {
+            msg: ErrorMsg {
+              short: "Invalid Unicode escape in text string".to_string(),
+              extended: None,
+            },
+          });
+        }
         let unescaped = unescape_text(text_content);
         return Ok(ast::Type2::TextValue {
           value: Cow::Owned(unescaped),
@@ -2584,6 +2601,59 @@ fn convert_value_to_type2<'a>(
       extended: None,
     },
   })
+}
+
+/// Does the text (already matched by the grammar's `escape_sequence`) contain a
+/// `\uXXXX` / `\u{hex}` escape that denotes no Unicode scalar value: a lone
+/// surrogate, a high surrogate not followed by a low-surrogate escape, or a
+/// code point above U+10FFFF? Such a literal has no value (RFC 8610 / RFC 9682)
+/// and must be rejected instead of silently losing the character.
+fn has_invalid_unicode_escape(text: &str) -> bool {
+  let hex4 = |at: usize| text.get(at..at + 4).and_then(|h| u32::from_str_radix(h, 16).ok());
+  let bytes = text.as_bytes();
+  let mut i = 0;
+  while i < bytes.len() {
+    if bytes[i] != b'\\' {
+      i += 1;
+      continue;
+    }
+    if bytes.get(i + 1) != Some(&b'u') {
+      i += 2;
+      continue;
+    }
+    i += 2;
+    if bytes.get(i) == Some(&b'{') {
+      let end = match text[i..].find('}') {
+        Some(p) => i + p,
+        None => return true,
+      };
+      match u32::from_str_radix(&text[i + 1..end], 16) {
+        Ok(cp) if char::from_u32(cp).is_some() => {}
+        _ => return true,
+      }
+      i = end + 1;
+    } else {
+      let hi = match hex4(i) {
+        Some(v) => v,
+        None => return true,
+      };
+      i += 4;
+      if (0xD800..=0xDBFF).contains(&hi) {
+        let lo = if text.get(i..i + 2) == Some("\\u") {
+          hex4(i + 2)
+        } else {
+          None
+        };
+        match lo {
+          Some(lo) if (0xDC00..=0xDFFF).contains(&lo) => i += 6,
+          _ => return true,
+        }
+      } else if (0xDC00..=0xDFFF).contains(&hi) {
+        return true;
+      }
+    }
+  }
+  false
 }
 
 /// Unescape text value (supports RFC 9682 \u{hex} escapes and surrogate pairs)
